@@ -33,4 +33,6 @@ impl From<io::Error> for DecodeError {
     }
 }
 
+pub const CR: u8 = b'\r';
 pub const LF: u8 = b'\n';
+pub const CRLF: &[u8] = b"\r\n";
